@@ -16,6 +16,7 @@ import (
 	"github.com/go-kid/ioc/configure"
 	"github.com/go-kid/ioc/configure/binder"
 	"github.com/go-kid/ioc/configure/loader"
+	"github.com/go-kid/ioc/definition"
 	"github.com/go-kid/ioc/syslog"
 	"gopkg.in/yaml.v3"
 )
@@ -57,6 +58,14 @@ func (l *cfgOrdLoader) Order() int                  { return l.ord }
 type cfgPrioLoader struct{ *cfgOrdLoader }
 
 func (*cfgPrioLoader) Priority() {}
+
+// a loader that embeds the library's PriorityComponent but has no Order(): not priority-ORDERED, sequenced like the raw ones
+type cfgMarkLoader struct {
+	definition.PriorityComponent
+	doc []byte
+}
+
+func (l *cfgMarkLoader) LoadConfig() ([]byte, error) { return l.doc, nil }
 
 func docFor(i int, keys []string, root bool) []byte {
 	tree := map[string]any{}
@@ -125,6 +134,8 @@ func runConfig(sc *CfgScenario, dir string) map[string]any {
 			} else {
 				ld = ol
 			}
+		case "markl":
+			ld = &cfgMarkLoader{doc: docFor(o.Val, o.Keys, true)}
 		default:
 			ld = loader.NewRawLoader(docFor(o.Val, o.Keys, true))
 		}
@@ -137,6 +148,11 @@ func runConfig(sc *CfgScenario, dir string) map[string]any {
 	flush()
 	holder := &cfgProps{}
 	ops = append(ops, app.SetComponents(holder))
+	// the same option sequence, grouped: app.Options(...) applies its members in order
+	if h := len(sc.ID) + len(sc.Opts); h%2 == 1 && len(ops) >= 3 {
+		k := len(ops) / 2
+		ops = []app.SettingOption{app.Options(ops[:k]...), app.Options(app.Options(ops[k:]...))}
+	}
 	ap := app.NewApp()
 	ok, panicked := true, false
 	func() {
